@@ -72,6 +72,8 @@ type Unit struct {
 	hparents  map[string][]string
 	qsorts    map[string]string
 	readLog   map[string]string
+	insertOnlyAddrs []*Val
+	frameMode bool
 	monitorHook func(fr *Frame, name string, st *State, args []*Val, pos token.Pos)
 	ospecDone map[string]bool
 }
@@ -209,6 +211,7 @@ type Frame struct {
 	mats     map[*Val]*Val
 	ctVars   map[string]*Val
 	nameVals map[string]ssa.Value
+	nameAddrs map[string]ssa.Value
 	lastKeyInfo keyInfo
 	freshBase string
 }
@@ -476,21 +479,37 @@ func (fr *Frame) collectNames() {
 	fr.names = map[string]*Val{}
 	fr.phiNames = map[*ssa.BasicBlock]map[string]ssa.Value{}
 	fr.nameVals = map[string]ssa.Value{}
+	fr.nameAddrs = map[string]ssa.Value{}
 	amb := map[string]bool{}
 	for _, b := range fr.fn.Blocks {
 		for _, in := range b.Instrs {
 			d, ok := in.(*ssa.DebugRef)
-			if !ok || d.IsAddr {
+			if !ok {
 				continue
 			}
 			id, ok := d.Expr.(*ast.Ident)
 			if !ok {
 				continue
 			}
+			if d.IsAddr {
+				// a variable that lives in memory (captured by a closure, address taken): name -> its cell
+				if _, isAlloc := d.X.(*ssa.Alloc); isAlloc {
+					if old, ok := fr.nameAddrs[id.Name]; ok && old != d.X {
+						amb["&"+id.Name] = true
+					}
+					fr.nameAddrs[id.Name] = d.X
+				}
+				continue
+			}
 			if old, ok := fr.nameVals[id.Name]; ok && old != d.X {
 				amb[id.Name] = true
 			}
 			fr.nameVals[id.Name] = d.X
+		}
+	}
+	for n := range amb {
+		if strings.HasPrefix(n, "&") {
+			delete(fr.nameAddrs, n[1:])
 		}
 	}
 	// instantiations of generic functions carry no debug references: map the origin's through positions
@@ -645,6 +664,46 @@ func (fr *Frame) runBlock(b *ssa.BasicBlock, entry *State) {
 	fr.out[b] = st
 }
 
+// orderCheck: leaving a range-over-map loop early without returning makes the outcome depend on the
+// iteration order (class "order"; only generated in frame mode, i.e. for the purity properties)
+func (fr *Frame) orderCheck(from, to *ssa.BasicBlock, e *State) {
+	u := fr.u
+	if !u.frameMode || fr.depth != 0 {
+		return
+	}
+	for h, body := range fr.loopBody {
+		if !body[from] || body[to] || from == h {
+			continue
+		}
+		// is h a map-range loop?
+		isMap := false
+		for _, in := range h.Instrs {
+			if nx, ok := in.(*ssa.Next); ok {
+				if rg, ok := nx.Iter.(*ssa.Range); ok {
+					if _, ok := rg.X.Type().Underlying().(*types.Map); ok {
+						isMap = true
+					}
+				}
+			}
+		}
+		if !isMap {
+			continue
+		}
+		// a break jumps to the block where the loop's normal exit continues (the successor of the header
+		// that lies outside the loop); returns and panics go elsewhere
+		var done *ssa.BasicBlock
+		for _, sc := range h.Succs {
+			if !body[sc] {
+				done = sc
+			}
+		}
+		if done == nil || to != done {
+			continue
+		}
+		u.oblige(fr, e, "order", fmt.Sprintf("loop%d", fr.loopOrd[h]), "false", token.NoPos, "a loop over a map is left early without returning: the outcome may depend on the iteration order")
+	}
+}
+
 func (fr *Frame) setEdge(from, to *ssa.BasicBlock, st *State, cond string) {
 	u := fr.u
 	e := st.clone()
@@ -657,6 +716,7 @@ func (fr *Frame) setEdge(from, to *ssa.BasicBlock, st *State, cond string) {
 		fr.closeLoop(from, to, e)
 		return
 	}
+	fr.orderCheck(from, to, e)
 	fr.edges[[2]int{from.Index, to.Index}] = e
 }
 
@@ -685,6 +745,7 @@ func (fr *Frame) step(b *ssa.BasicBlock, in ssa.Instruction, st *State) {
 		na.Sels = append(append([]sel{}, a.Sels...), sel{field: x.Field, cont: pt.Elem()})
 		na.Ty = x.Type()
 		fr.vals[x] = &na
+		fr.guardedAccess(&na, st, x.Pos())
 	case *ssa.IndexAddr:
 		idx := fr.val(x.Index).T
 		switch xt := x.X.Type().Underlying().(type) {
@@ -1165,7 +1226,51 @@ func (fr *Frame) makeIface(v *Val, from types.Type, to types.Type, st *State) *V
 	bx, ub := w.boxFn(srt)
 	boxed := fmt.Sprintf("(%s %s)", bx, vt)
 	u.fact(eq(fmt.Sprintf("(%s %s)", ub, boxed), vt))
-	return term(fmt.Sprintf("(mkIface %s %s)", w.tag(from), boxed), to)
+	res := fmt.Sprintf("(mkIface %s %s)", w.tag(from), boxed)
+	if pt, isPtr := from.(*types.Pointer); isPtr && st != nil {
+		if _, isStruct := pt.Elem().Underlying().(*types.Struct); isStruct && v.K == vTerm {
+			if cet := u.eng.ceType(); cet == nil || !types.Identical(pt.Elem(), cet) {
+				a := u.addrOfPtr(v)
+				fr.errorChainFacts(res, u.loadAddr(st, a), pt.Elem())
+			}
+		}
+	} else {
+		fr.errorChainFacts(res, vt, from)
+	}
+	return term(res, to)
+}
+
+// errorChainFacts: what errors.As(*ConstraintError) finds in an error value of one of the SDK's own error
+// struct types: the constraint error of its Cause (these types unwrap to Cause), nothing for types without one.
+func (fr *Frame) errorChainFacts(iface string, v string, from types.Type) {
+	u := fr.u
+	n, ok := from.(*types.Named)
+	if !ok || n.Obj().Pkg() == nil || !isOwnPkg(n.Obj().Pkg().Path()) {
+		return
+	}
+	st, ok := n.Underlying().(*types.Struct)
+	if !ok {
+		return
+	}
+	if mset := types.NewMethodSet(from); mset.Lookup(n.Obj().Pkg(), "Error") == nil {
+		return
+	}
+	if cet := u.eng.ceType(); cet != nil && types.Identical(from, cet) {
+		return
+	}
+	okf := u.fn("as_ce_ok", []string{"Iface"}, "Bool")
+	valf := u.fn("as_ce_val", []string{"Iface"}, "Ref")
+	for i := 0; i < st.NumFields(); i++ {
+		if st.Field(i).Name() == "Cause" && isErrorType(st.Field(i).Type()) {
+			c := u.w.fieldSel(from, i, v)
+			u.fact(eq(app(okf, iface), app(okf, c)))
+			u.fact(implies(app(okf, c), eq(app(valf, iface), app(valf, c))))
+			fr.ceOfTerm(c)
+			u.assume["the SDK's own error struct types unwrap to their Cause field (read from their Unwrap methods, not re-verified per call)"] = true
+			return
+		}
+	}
+	u.fact(not(app(okf, iface)))
 }
 
 func (fr *Frame) typeAssert(x *ssa.TypeAssert, st *State) *Val {
@@ -1257,12 +1362,10 @@ func (fr *Frame) convert(v *Val, from, to types.Type, st *State) *Val {
 	}
 	// string <-> []byte / []rune : opaque
 	if isString(from) {
-		if _, ok := to.Underlying().(*types.Slice); ok {
-			r := u.w.newConst("bytes", "Slice")
-			for _, f := range u.wfFacts(st, r, to, 0) {
-				u.fact(f)
-			}
-			u.fact(fmt.Sprintf("(>= (birth (sdata %s)) %s)", r, st.now))
+		if stt, ok := to.Underlying().(*types.Slice); ok {
+			n := u.w.newConst("byteslen", "Int")
+			u.fact(and(fmt.Sprintf("(>= %s 0)", n), fmt.Sprintf("(< %s 281474976710656)", n)))
+			r, _ := u.freshSlice(st, stt.Elem(), n, "bytes")
 			return term(r, to)
 		}
 	}
